@@ -184,6 +184,24 @@ def _reaching(body, l, pos):
     return sorted(out, key=lambda d: (d[0], _idx(d[1])))
 
 
+def _reach_avoiding(b, src, dst, kill):
+    """path src -> dst along normal edges that does not enter block `kill` (unless src is in it)"""
+    if src == dst:
+        return True
+    seen = {src}
+    st = [src]
+    while st:
+        x = st.pop()
+        for y in b.succs(x):
+            if y == dst:
+                return True
+            if y in seen or y == kill:
+                continue
+            seen.add(y)
+            st.append(y)
+    return False
+
+
 class XB:
     """a view of a mir.Body whose expression trees are built relative to a program position"""
 
@@ -290,7 +308,8 @@ class XB:
             after_base = (pb == start[0] and ppos[1] > start[1]) or (pb != start[0] and b.dominates(start[0], pb))
             if not after_base:
                 continue
-            before_use = (pb == at[0] and ppos[1] < _idx(at[1])) or (pb != at[0] and b.can_reach(pb, at[0]))
+            # the store must reach the use without passing the base definition again (loop-carried stores are killed by it)
+            before_use = (pb == at[0] and ppos[1] < _idx(at[1])) or (pb != at[0] and start[0] != at[0] and _reach_avoiding(b, pb, at[0], start[0]))
             if not before_use:
                 continue
             definite = pb == at[0] or b.dominates(pb, at[0])
@@ -395,6 +414,16 @@ def deep(F, path, x=True, depth=0):
     return re.sub(r"\{closure#(\d+)\}", sub, s)
 
 
+def inline_closures(F, path, s, x=True):
+    """replace `{closure#k}` in a rendering made inside body `path` by the deep normal form of that closure"""
+    def sub(m):
+        child = "%s::{closure#%s}" % (path, m.group(1))
+        if child not in F.bodies:
+            return m.group(0)
+        return "\u03bb[" + deep(F, child, x, 1) + "]"
+    return re.sub(r"\{closure#(\d+)\}", sub, s)
+
+
 def expect_deep(ck, F, rule, key, path, accepted, what, file="src/asm.rs", abbr=()):
     b = F.bodies.get(path)
     if not ck.anchor(rule, path, b):
@@ -405,3 +434,68 @@ def expect_deep(ck, F, rule, key, path, accepted, what, file="src/asm.rs", abbr=
     ok = got in accepted
     ck.ob(rule, key, ok, "%s; normal form: %s%s" % (what, got, "" if ok else "  (accepted: %s)" % " | ".join(accepted)), "%s:%s" % (file, b.line))
     return ok
+
+
+# ---------------------------------------------------------------------------------------------
+def path_conditions(body, target, want, limit=4000):
+    """Decision combinations under which `target` is reached: all acyclic paths from the entry are walked;
+    at every switch whose (position-aware) discriminant rendering satisfies want(str) the taken edge label is
+    recorded.  Returns a set of frozensets {(discriminant, label)}; None if the path limit is exceeded.
+    Blocks shared by several match arms (or-patterns) are handled, which dominating-edge analysis cannot."""
+    xb = XB(body)
+    dcache = {}
+
+    def discr(bi):
+        if bi not in dcache:
+            t = body.blocks[bi]["term"]
+            s = None
+            if t["k"] == "switch":
+                s = pp_x(xb.expr_of_operand(t["discr"], 12, (bi, "term")))
+                if not want(s):
+                    s = None
+            dcache[bi] = s
+        return dcache[bi]
+    # restrict to blocks that can reach the target
+    can = set()
+    preds = body.preds()
+    st = [target]
+    while st:
+        x = st.pop()
+        if x in can:
+            continue
+        can.add(x)
+        st.extend(preds[x])
+    out = set()
+    count = [0]
+    memo = {}
+
+    def walk(bi, onpath):
+        """set of frozensets of decisions from bi to target"""
+        if bi == target:
+            return {frozenset()}
+        key = bi
+        if key in memo:
+            return memo[key]
+        res = set()
+        t = body.blocks[bi]["term"]
+        d = discr(bi)
+        if t["k"] == "switch":
+            edges = [(str(v), tb) for v, tb in t["values"]] + [("else", t["otherwise"])]
+            if len(edges) == 2 and edges[1][0] == "else" and t.get("discr_ty") == "bool":
+                edges = [edges[0], ("1" if edges[0][0] == "0" else "0", edges[1][1])]
+        else:
+            edges = [(None, s) for s in body.succs(bi)]
+        for lab, nb in edges:
+            if nb not in can or nb in onpath:
+                continue
+            count[0] += 1
+            if count[0] > limit:
+                raise OverflowError
+            for tail in walk(nb, onpath | {nb}):
+                res.add(tail | {(d, lab)} if d is not None and lab is not None else tail)
+        memo[key] = res
+        return res
+    try:
+        return walk(0, frozenset([0]))
+    except OverflowError:
+        return None
